@@ -186,6 +186,10 @@ class PendingIf(_PendingCompoundStmt[If]):
             if len(self.converted_orelse) > 0:
                 body_or_true = BoolOp(op=Or(), values=[body, Constant(value=1)])
                 semi_if = BoolOp(op=And(), values=[test, body_or_true])
+                if isinstance(orelse, BoolOp) and isinstance(orelse.op, Or):
+                    # `a or (b or c)` is `a or b or c`: a long elif chain stays flat
+                    # instead of nesting one pair of parentheses per branch
+                    return [BoolOp(op=Or(), values=[semi_if, *orelse.values])]
                 return [BoolOp(op=Or(), values=[semi_if, orelse])]
             else:
                 return [BoolOp(op=And(), values=[test, body])]
